@@ -40,7 +40,7 @@ H1_GRAPH = [from_tlc.gen_h1_from_graph]
 PROPS: Dict[str, Dict[str, Any]] = {
     "C01": {"monitor": "C01", "generators": [gen_h1.gen_c01, gen_h2.gen_h2_basic, sampled(gen_h1.gen_c06, 400)] + H1_GEN, "design": H1_DESIGN},
     "C02": {"monitor": "C02", "generators": [gen_h1.gen_c02, gen_h2.gen_h2_basic, sampled(gen_h1.gen_c06, 400), gen_h2.gen_flow] + H1_GEN, "design": H1_DESIGN},
-    "C03": {"monitor": "C03", "generators": [gen_h1.gen_c03, gen_h2.gen_h2_faults] + H1_GEN + H1_GRAPH, "design": H1_DESIGN,
+    "C03": {"monitor": "C03", "generators": [gen_h1.gen_c03, gen_h2.gen_h2_faults, sampled(gen_h2.gen_release, 150)] + H1_GEN + H1_GRAPH, "design": H1_DESIGN,
             "deviations": [_dev("DevDoubleLog", "AtMostOneAccess"), _dev("DevParked", "Released")]},
     "C05": {"parts": [
         {"monitor": "C05", "generators": [gen_h1.gen_c05, gen_h2.gen_h2_faults] + H1_GEN, "design": H1_DESIGN},
